@@ -3,21 +3,40 @@
 package main
 
 import (
+	"context"
 	"fmt"
 	"os"
 	"path/filepath"
 	"sort"
 
+	"github.com/lindb/lindb/models"
 	"github.com/lindb/lindb/pkg/queue"
+	"github.com/lindb/lindb/replica"
+	"github.com/lindb/lindb/tsdb"
 
 	"lindbverif/vh"
 )
 
 type opJ struct {
-	K string `json:"k"`
-	N int    `json:"n,omitempty"`
-	V int64  `json:"v,omitempty"`
+	K   string `json:"k"`
+	N   int    `json:"n,omitempty"`
+	V   int64  `json:"v,omitempty"`
+	Via string `json:"via,omitempty"` // setappended: "partition" = through the follower-side handler of the leader's Reset
 }
+
+// the log's partition (replica.NewPartition over the same fan-out queue): its ResetReplicaIndex(idx) is what the leader's
+// Reset request runs on a follower; it sets the log to appended = idx - 1
+type fakeDatabase struct{ tsdb.Database }
+
+func (fakeDatabase) Name() string { return "db" }
+
+type fakeShard struct{ tsdb.Shard }
+
+func (fakeShard) Database() tsdb.Database { return fakeDatabase{} }
+func (fakeShard) ShardID() models.ShardID { return 1 }
+func (fakeShard) Indicator() string       { return "db/1" }
+
+type fakeFamily struct{ tsdb.DataFamily }
 
 func (o opJ) coq() string {
 	switch o.K {
@@ -246,6 +265,9 @@ func main() {
 						v = app + int64(r.Range(1, 3))
 					}
 					o = opJ{K: "setappended", V: v}
+					if r.Bool() {
+						o.Via = "partition"
+					}
 				case x < 86:
 					o = opJ{K: "sync"}
 				case x < 90:
@@ -301,7 +323,11 @@ func main() {
 					g.SetConsumedSeq(o.V)
 				}
 			case "setappended":
-				w.fq.SetAppendedSeq(o.V)
+				if o.Via == "partition" {
+					replica.NewPartition(context.Background(), fakeShard{}, fakeFamily{}, 2, w.fq, nil, nil).ResetReplicaIndex(o.V + 1)
+				} else {
+					w.fq.SetAppendedSeq(o.V)
+				}
 			case "sync":
 				w.fq.Sync()
 				if afterConsume {
